@@ -48,6 +48,7 @@ class Generated:
         self.features: Dict[str, int] = {}
         self.collisions = 0                           # how many identifier occurrences collide in spelling with another binding
         self.calls_expanded = 0
+        self.continuations = 0                        # statements broken over two physical lines
 
 
 class Gen:
@@ -340,6 +341,23 @@ class Gen:
             return f'{indent}{name} {args}'.rstrip()
         return f'{indent}rep({self.render_expr(st["count_expr"], m, cur_ns)}, {st["iter"]}) {name} {args}'.rstrip()
 
+    @staticmethod
+    def physical(lines: List[str]) -> int:
+        """number of physical source lines rendered so far (an entry may hold a backslash-newline continuation)."""
+        return sum(entry.count('\n') + 1 for entry in lines)
+
+    def maybe_continue(self, text: str, st: Dict[str, Any]) -> str:
+        """now and then break an op / wflip statement over two physical lines with a backslash-newline: every later statement
+        of the file is one line further down, and the expansion paths name physical lines."""
+        if st['kind'] not in ('op', 'wflip') or self.rng.random() >= 0.1:
+            return text
+        mark = ';' if st['kind'] == 'op' else ', '
+        head, sep, tail = text.partition(mark)
+        if not sep:
+            return text
+        self.out.continuations = getattr(self.out, 'continuations', 0) + 1
+        return f'{head}{sep}\\\n    {tail}'
+
     def render_macro(self, m: MacroDef, lines: List[str], short: str) -> None:
         indent = '    ' * len(m.ns)
         for depth, part in enumerate(m.ns):
@@ -354,10 +372,10 @@ class Gen:
         if m.extern is not None:
             header += ' > ' + m.extern
         lines.append(header + ' {')
-        m.def_line, m.file = len(lines), short
+        m.def_line, m.file = self.physical(lines), short
         for st in m.body:
-            lines.append(self.render_stmt(st, m, m.ns, indent + '    '))
-            st['line'], st['file'] = len(lines), short
+            lines.append(self.maybe_continue(self.render_stmt(st, m, m.ns, indent + '    '), st))
+            st['line'], st['file'] = self.physical(lines), short
         lines.append(indent + '}')
         for depth in reversed(range(len(m.ns))):
             lines.append('    ' * depth + '}')
@@ -407,16 +425,16 @@ class Gen:
                 elif kind == 'macro':
                     self.render_macro(payload, lines, short)
                 elif kind == 'stmt':
-                    lines.append(self.render_stmt(payload, None, [], ''))
-                    payload['line'], payload['file'] = len(lines), short
+                    lines.append(self.maybe_continue(self.render_stmt(payload, None, [], ''), payload))
+                    payload['line'], payload['file'] = self.physical(lines), short
                 else:
                     lab, op = payload
                     for depth, part in enumerate(lab['ns']):
                         lines.append('    ' * depth + f'ns {part} {{')
                     ind = '    ' * len(lab['ns'])
                     lines.append(f'{ind}{lab["base"]}:')
-                    lines.append(self.render_stmt(op, None, lab['ns'], ind))
-                    op['line'], op['file'] = len(lines), short
+                    lines.append(self.maybe_continue(self.render_stmt(op, None, lab['ns'], ind), op))
+                    op['line'], op['file'] = self.physical(lines), short
                     for depth in reversed(range(len(lab['ns']))):
                         lines.append('    ' * depth + '}')
             self.out.files.append((short, '\n'.join(lines) + '\n'))
